@@ -242,6 +242,9 @@ class DataModels:
             raise Unsupported('del item')
 
     def contains(self, I, container, x, node=None):
+        if isinstance(x, Code) and isinstance(container, (tuple, list, set, frozenset)) and \
+                all(isinstance(y, str) for y in container):
+            x.cands = sorted(container)        # hint for later case splits (soundness: see code_str)
         if isinstance(container, (tuple, list, set, frozenset)):
             return zor(*[I.equal(x, y) for y in container])
         if isinstance(container, dict):
@@ -319,8 +322,22 @@ class DataModels:
             alleq = z3.Or(to_int(l.off) == to_int(r.off), to_int(l.n) == 0, alleq)
         return z3.And(to_int(l.n) == to_int(r.n), alleq)
 
+    def code_str(self, I, code, node):
+        """a concrete python str for an enum-coded value: explicit case split over the names a
+        preceding membership test mentioned; every case is decided by a real branch, and the
+        no-match case is a checker error, so a stale hint cannot hide a path"""
+        cands = getattr(code, 'cands', None)
+        if not cands:
+            raise Unsupported('string operation on an enum-coded value without a preceding membership test (line %s)' % line_of(node))
+        for c in cands:
+            if I.ctx.branch(code.eq(c)):
+                return c
+        raise Unsupported('enum-coded value matches none of the candidate names (line %s)' % line_of(node))
+
     def getslice(self, I, b, lo, hi, st, node=None):
         ln = line_of(node)
+        if isinstance(b, Code):
+            b = self.code_str(I, b, node)
         if b is None:
             raise PyExc('TypeError', ln)
         if isinstance(b, (list, tuple, str, bytes)) and not any(is_sym(x) for x in (lo, hi, st)):
